@@ -1371,6 +1371,84 @@ def stale_dump_stage(ctx):
             report(f"run #{i + 1} into the same --dump-smt-directory", "A.check_foo", mark, code, f"marks={[hex(m) for m in marks]}")
 
 
+KEY_RAISE_TEST = "run_tests:raising-test"
+
+
+def raising_tests_stage(ctx):
+    """test functions that RAISE before / inside run_test (a parameter of an unsupported ABI type: `function`, `fixed128x18`)
+    at every position among passing and failing neighbours, through the real `_main`: one TestResult per selected test, in
+    order, the raising one is EXCEPTION (never a copy of its neighbour, never PASS), the others are what their own paths
+    give, and the exit code is 1 (Lean: `raising_test_fails_run`, `exit_nonzero_iff`)."""
+    h = H()
+    art, stub = h["art"], h["stub"]
+    rng = ctx.rng
+    x = asm.calldata_arg(0)
+    mk = {
+        "P": lambda n: art.Fn(f"{n}(uint256 x)", asm.return_empty()),
+        "F": lambda n: art.Fn(f"{n}(uint256 x)", asm.if_then(asm.eq_const(x, 7), asm.panic(1))),
+        "R": lambda n: art.Fn(f"{n}(function f)", asm.return_empty()),
+        "R2": lambda n: art.Fn(f"{n}(uint256 x, fixed128x18 v)", asm.return_empty()),
+    }
+    want = {"P": 0, "F": 1, "R": 5, "R2": 5}
+    layouts = [["P", "R"], ["P", "R", "P"], ["R", "P"], ["P", "P", "R2"], ["F", "R", "P"], ["P", "R", "F"], ["R"], ["P", "R", "R2", "P"]]
+    if ctx.tier != "quick":
+        layouts += [list(t) for n in (2, 3) for t in itertools.product(["P", "F", "R"], repeat=n) if "R" in t]
+    # two contracts: the raising test is the first of the second contract
+    plans = [[lay] for lay in layouts] + [[["P"], ["R", "P"]], [["P", "F"], ["P", "R"]]]
+    lines, items = [], []
+    for plan in plans:
+        descs, expect = [], []
+        for ci, lay in enumerate(plan):
+            names = [f"check_c{ci}_{chr(97 + i)}" for i in range(len(lay))]     # selection order = definition order
+            descs.append(art.TestContract(f"R{ci}", [mk[k](n) for k, n in zip(lay, names)]))
+            expect.append([(n, want[k]) for k, n in zip(lay, names)])
+        tmp = tempfile.mkdtemp(prefix="verif_c05r_")
+        try:
+            with stub.Script(tmp) as s:
+                s.default(reply="sat", model={"p_x_uint256": 7})
+                s.write()
+                try:
+                    run = art.run_main_offline(descs, solver_command=s.command, solver_threads=1)
+                except Exception as e:   # noqa: BLE001 — an exception escaping _main is itself the observation
+                    ctx.violation(f"{KEY_RAISE_TEST}:exception-escapes-_main:{type(e).__name__}",
+                                  f"_main raised {type(e).__name__}: {e} for contracts with test layouts {plan} (R = raising test)",
+                                  {"kind": "raising", "plan": plan})
+                    continue
+        finally:
+            shutil.rmtree(tmp, ignore_errors=True)
+        ctx.case(("raising", json.dumps(plan)), nontrivial=True)
+        ctx.count("raising-tests:" + "|".join("".join(k[0] for k in lay) for lay in plan))
+        got = {path.split(":")[-1]: [(r.name.split("(")[0], r.exitcode) for r in rs] for path, rs in (run.test_results or {}).items()}
+        for ci, exp in enumerate(expect):
+            g = got.get(f"R{ci}")
+            lay = plan[ci]
+            if g is None or len(g) != len(exp) or [n for n, _ in g] != [n for n, _ in exp]:
+                ctx.violation(f"{KEY_RAISE_TEST}:one-result-per-selected-test-in-order",
+                              f"contract R{ci} with tests {lay}: results {g}, expected one per test in order {[n for n, _ in exp]}",
+                              {"kind": "raising", "plan": plan})
+                continue
+            for (n, code), (_, wcode), k in zip(g, exp, lay):
+                if code != wcode:
+                    what = "raising-test-recorded-as" if k.startswith("R") else "neighbour-of-raising-test-recorded-as"
+                    ctx.violation(f"{KEY_RAISE_TEST}:{what}-{EXIT_NAME.get(code, code)}",
+                                  f"contract R{ci} tests {lay} (P pass, F fail, R raises NotImplementedError in mk_calldata): {n} is "
+                                  f"recorded with exit code {code} ({EXIT_NAME.get(code, code)}), expected {EXIT_NAME[wcode]}; all results {g}",
+                                  {"kind": "raising", "plan": plan})
+        arg = ";".join(f"{len(exp)}:{','.join(str(c) for _, c in got.get(f'R{ci}', [])) or '-'}" for ci, exp in enumerate(expect))
+        statuses = "".join({0: "p", 1: "f", 5: "e"}[w] for exp in expect for _, w in exp)
+        lines += ["exit " + arg, "specexit " + statuses]
+        items.append((plan, run.exitcode, got))
+    rep = _Lean.ask(ctx, lines)
+    for i, (plan, exitcode, got) in enumerate(items):
+        model_exit, spec_exit = rep[2 * i], rep[2 * i + 1]
+        if str(exitcode) != spec_exit:
+            ctx.violation(f"{KEY_RAISE_TEST}:exit-code-{exitcode}-where-property-says-{spec_exit}",
+                          f"_main exits {exitcode} for test layouts {plan} with results {got}: a test that raised did not pass",
+                          {"kind": "raising", "plan": plan})
+        elif model_exit != f"ok {exitcode}":
+            raise RuntimeError(f"exit code model mismatch on raising tests: impl {exitcode}, model {model_exit}, results {got}")
+
+
 def correspond(ctx):
     rng = ctx.rng
     lits = harvest_literals()
@@ -1400,6 +1478,7 @@ def correspond(ctx):
     stage("real-yices", lambda: real_yices_cases(ctx))
     stage("parallel-paths", lambda: parallel_paths_stage(ctx))
     stage("stale-dump", lambda: stale_dump_stage(ctx))
+    stage("raising-tests", lambda: raising_tests_stage(ctx))
 
     t_e2e = time.time()
     pend = Pending()
@@ -1500,6 +1579,13 @@ def replay(ctx, data) -> bool:
         want = fl if fl in ("sat", "unsat", "unknown") else "err"
         print(f"from_result({r['text']!r}, rc={r['rc']}) -> {kind}; expected {want}")
         return kind != want or (kind == "sat" and so.model.is_valid != ("f_evm_" not in r["text"]))
+    if r.get("kind") == "raising":
+        sub = SimpleNamespace(violations=[], count=lambda *a, **k: None, case=lambda *a, **k: None, tier="quick", rng=ctx.rng)
+        sub.violation = lambda key, what, rep: sub.violations.append((key, what))
+        raising_tests_stage(sub)
+        for key, what in sub.violations:
+            print(key, "—", what)
+        return bool(sub.violations)
     if r.get("kind") == "stale":
         sub = SimpleNamespace(violations=[], count=lambda *a, **k: None, case=lambda *a, **k: None)
         sub.violation = lambda key, what, rep: sub.violations.append((key, what))
